@@ -22,11 +22,14 @@
    the boolean check used by the correspondence.
 
    Faithful details (the code that exists):
-     * "has a source" is `if pipeline.source` / `if not self.source`, i.e. the TRUTHINESS of the source callable
-       ([truthy]); a callable object that is falsy (e.g. an empty callable container) counts as "no source".
-     * a second register_value_producer on a pipeline whose first source is falsy passes the DynamicValueError check,
-       REPLACES source/combiner/post-processor and only then fails in ResourceManager.add_resources (duplicate
-       `value_source.<name>`): rejected (ResourceError) but not inert.
+     * "has a source" is `pipeline.source is not None` (since fix e7ddbc13, finding F-Y; before it the code tested the
+       TRUTHINESS of the source callable - that old behaviour is kept as [OldTruthiness] at the end of Part 1, with the
+       two witnesses of what was wrong with it).  The recorded truth value of a probe source (first component of an
+       [e_srcs] entry) is therefore ignored by the model.
+     * "has a post-processor" is still `if self.post_processor`: PNone stands for None; falsy post-processor callables
+       are outside the model.
+     * keyword arguments of Pipeline.__call__ are handed to the source and to every modifier unchanged: they are part of
+       the argument type ([carg] carries them).
      * list_combiner on a value that is not a list: `value.append` raises AttributeError before the mutator is
        evaluated; rescale_post_processor on a list: `hasattr(list, "index")` holds, `list.mul` raises AttributeError. *)
 From Viv Require Import Common.
@@ -107,11 +110,6 @@ Section Generic.
   Variable modr : Z -> arg -> pv atom -> pv atom.         (* modifier called with the previous value as LAST argument *)
   Variable modl : Z -> arg -> atom.                       (* modifier called with the caller's arguments only *)
   Variable post : postk -> pv atom -> result (pv atom).   (* post-processors (may raise on a value of the wrong shape) *)
-  Variable truthy : Z -> bool.                            (* bool(source callable) *)
-
-  (* `if pipeline.source` *)
-  Definition has_source (p : pipe) : bool :=
-    match p_source p with Some s => truthy s | None => false end.
 
   (* register_value_producer -> _register_value_producer, then resources.add_resources("value_source", [name], ...) *)
   Definition register_producer (r : registry) (n s : Z) (c : combiner) (k : postk) : registry * out arg atom :=
@@ -119,8 +117,7 @@ Section Generic.
     let p' := {| p_source := Some s; p_muts := p_muts p; p_comb := c; p_post := k |} in
     match p_source p with
     | None => (set_pipe r n p', ODone)
-    | Some s0 => if truthy s0 then (r, ORejected EDynamicValue)          (* values.py 342-346 *)
-                 else (set_pipe r n p', ORejected EResource)             (* 347-351 ran; resource.py 203-208 raises *)
+    | Some _ => (r, ORejected EDynamicValue)                             (* values.py 342-346: `is not None` *)
     end.
 
   (* register_value_modifier: `pipeline = self._pipelines[value_name]; pipeline.mutators.append(modifier)` *)
@@ -162,7 +159,6 @@ Section Generic.
     match p_source p with
     | None => ([], Rejected EDynamicValue)
     | Some s =>
-        if negb (truthy s) then ([], Rejected EDynamicValue) else
         match apply_muts (p_comb p) (p_muts p) a [ESrc s a] (src s a) with
         | (tr, Ok v) => if post_applies p skip then (tr ++ [EPost (p_post p) v], post (p_post p) v) else (tr, Ok v)
         | (tr, bad) => (tr, bad)
@@ -214,12 +210,32 @@ Section Generic.
     flat_map (fun e => match e with EPost k _ => [k] | _ => [] end) tr.
 End Generic.
 
-Arguments has_source truthy p : rename.
+(* `pipeline.source is not None` *)
+Definition has_source (p : pipe) : bool := match p_source p with Some _ => true | None => false end.
+
 Arguments first_producer {arg} n ops.
 Arguments mods_of {arg} n ops.
 Arguments src_ids {arg atom} tr.
 Arguments mod_ids {arg atom} tr.
 Arguments post_ids {arg atom} tr.
+
+(* ---- the code BEFORE fix e7ddbc13 (finding F-Y), kept only to state what was wrong with it ---- *)
+Module OldTruthiness.
+  Section Old.
+    Variable truthy : Z -> bool.                            (* bool(source callable) *)
+    (* `if pipeline.source: raise ...` else overwrite, then resources.add_resources raises on the duplicate name *)
+    Definition old_register_producer (r : registry) (n s : Z) (c : combiner) (k : postk) : registry * option err :=
+      let p := get_pipe r n in
+      let p' := {| p_source := Some s; p_muts := p_muts p; p_comb := c; p_post := k |} in
+      match p_source p with
+      | None => (set_pipe r n p', None)
+      | Some s0 => if truthy s0 then (r, Some EDynamicValue) else (set_pipe r n p', Some EResource)
+      end.
+    (* `if not self.source: raise DynamicValueError` *)
+    Definition old_call_refused (p : pipe) : bool :=
+      match p_source p with Some s => negb (truthy s) | None => true end.
+  End Old.
+End OldTruthiness.
 
 (* ================================================================================================================ *)
 (* Part 2 - exact arithmetic of the built-in post-processors                                                        *)
@@ -268,8 +284,10 @@ Definition union_q (l : list q) : q :=
 (* concrete values: a scalar or a Series over the index the pipeline was called with (position by position) *)
 Inductive catom := Sc (x : q) | Vec (xs : list q).
 Definition cpv := pv catom.
-(* concrete arguments: pipeline(pd.Index(idx), *extra) or pipeline( *extra) *)
-Definition carg := (option (list Z) * list Z)%type.
+(* concrete arguments: pipeline(pd.Index(idx), *extra, **kw) or pipeline( *extra, **kw); keyword arguments as
+   (name id, value) pairs sorted by name *)
+Definition carg := (option (list Z) * list Z * list (Z * Z))%type.
+Definition carg_idx (a : carg) : option (list Z) := fst (fst a).
 
 Definition affine (a b x : q) : q := qadd (qmul a x) b.
 Definition affine_atom (a b : q) (x : catom) : catom :=
@@ -284,7 +302,7 @@ Definition tbl_get (t : list (Z * q)) (i : Z) : q := match zassoc i t with Some 
 Definition eval_entry (a : carg) (e : entry) : catom :=
   match e with
   | NSc x => Sc x
-  | NTbl t => Vec (map (tbl_get t) (match fst a with Some idx => idx | None => [] end))
+  | NTbl t => Vec (map (tbl_get t) (match carg_idx a with Some idx => idx | None => [] end))
   end.
 
 Record env := {
@@ -299,8 +317,6 @@ Definition csrc (e : env) (s : Z) (a : carg) : cpv :=
   | Some (_, false, es) => One (eval_entry a (hd (NSc qzero) es))
   | None => One (Sc qzero)
   end.
-Definition ctruthy (e : env) (s : Z) : bool :=
-  match zassoc s (e_srcs e) with Some (t, _, _) => t | None => true end.
 Definition cmodr (e : env) (m : Z) (a : carg) (v : cpv) : cpv :=
   match zassoc m (e_mods e) with Some (x, y, _) => affine_pv x y v | None => v end.
 Definition cmodl (e : env) (m : Z) (a : carg) : catom :=
@@ -320,11 +336,12 @@ Definition union_atoms (l : list catom) : catom :=
          end
   end.
 
-(* the post-processors on concrete values; [steps] = simulant_step_sizes(value.index) in ns, [gstep] = step_size()
-   in ns, both read by the harness at the moment of the call.
-   OutOfFuel marks the one combination that is outside the modelled domain (union over a bare Series iterates its
-   elements); the harness never generates it. *)
-Definition cpost (e : env) (steps : list Z) (gstep : Z) (k : postk) (v : cpv) : result cpv :=
+(* the post-processors on concrete values; [idx] = the index the pipeline was called with, [steps] =
+   simulant_step_sizes(value.index) in ns, [gstep] = step_size() in ns, both read by the harness at the moment of the
+   call.  union_post_processor on a bare Series (a replace pipeline with the union post-processor) treats the Series
+   as the list of its elements: `len(values) == 1 -> values[0]` is a LABEL look-up of 0 (KeyError unless the single
+   requested simulant is simulant 0), otherwise 1 - prod(1 - v) over the simulants - one number. *)
+Definition cpost (e : env) (idx : option (list Z)) (steps : list Z) (gstep : Z) (k : postk) (v : cpv) : result cpv :=
   match k with
   | PNone => Ok v
   | PRescale => match v with
@@ -335,7 +352,11 @@ Definition cpost (e : env) (steps : list Z) (gstep : Z) (k : postk) (v : cpv) : 
   | PUnion => match v with
               | Many l => Ok (One (union_atoms l))
               | One (Sc _) => Rejected EOther
-              | One (Vec _) => OutOfFuel
+              | One (Vec [x]) => match idx with
+                                 | Some [i] => if i =? 0 then Ok (One (Sc x)) else Rejected EOther
+                                 | _ => Rejected EOther
+                                 end
+              | One (Vec xs) => Ok (One (Sc (union_q xs)))
               end
   | PCustom c => match zassoc c (e_posts e) with Some (x, y) => Ok (affine_pv x y v) | None => Ok v end
   end.
@@ -369,7 +390,8 @@ Definition atom_eqb (x y : catom) : bool :=
 Definition pv_eqb (x y : cpv) : bool :=
   match x, y with One a, One b => atom_eqb a b | Many a, Many b => list_eqb atom_eqb a b | _, _ => false end.
 Definition arg_eqb (a b : carg) : bool :=
-  option_eqb zlist_eqb (fst a) (fst b) && zlist_eqb (snd a) (snd b).
+  option_eqb zlist_eqb (carg_idx a) (carg_idx b) && zlist_eqb (snd (fst a)) (snd (fst b)) &&
+  list_eqb (fun x y => (fst x =? fst y) && (snd x =? snd y)) (snd a) (snd b).
 Definition ev_eqb (x y : ev carg catom) : bool :=
   match x, y with
   | ESrc s a, ESrc s' a' => (s =? s') && arg_eqb a a'
@@ -410,7 +432,8 @@ Definition out_code {A B} (o : out A B) : Z :=
   match o with ODone => 0 | ORejected e => code_of_err e | OCalled _ _ => 3 end.
 
 Definition cstep (e : env) (r : registry) (o : op carg) (steps : list Z) (gstep : Z) : registry * out carg catom :=
-  step carg catom (csrc e) (cmodr e) (cmodl e) (cpost e steps gstep) (ctruthy e) r o.
+  let idx := match o with Call _ a _ => carg_idx a | _ => None end in
+  step carg catom (csrc e) (cmodr e) (cmodl e) (cpost e idx steps gstep) r o.
 
 Fixpoint check_ops (e : env) (r : registry) (l : list (cop * cobs)) : bool :=
   match l with
